@@ -307,6 +307,7 @@ PAIR_SLOT = "image_pair"
 # n ranges over bounds a maintainer might put on the search for an unused name; one image kind per exported extension.
 NUMBERED_SLOT = "numbered_run"
 NUMBERED_RUNS = [10, 100, 255, 256, 1000, 1001, 4096]
+NUMBERED_GAP_RUNS = [0, 1, 2, 9, 10, 11]
 NUMBERED_KINDS = [("gray8", ".bmp"), ("dct", ".jpg"), ("jbig2", ".jb2"), ("raw4", ".4.2x2.img"), ("cmyk8", ".8.2x2.img")]    # enumerated only: case["h"] and case["h2"] name two page-level images of the same kind
 
 IMAGE_KINDS = ["gray8", "rgb8", "bw1", "dct", "raw4", "cmyk8", "flate_gray8", "flate_cmyk", "jbig2"]
@@ -348,6 +349,8 @@ def minimums(tier: str) -> Dict[str, int]:
         "numbered_run_family_runs": len(NUMBERED_RUNS) * len(NUMBERED_KINDS),
         "numbered_run_exactly_one_new_file": len(NUMBERED_RUNS) * len(NUMBERED_KINDS),
         "numbered_run_preexisting_files": sum(n + 1 for n in NUMBERED_RUNS) * len(NUMBERED_KINDS),
+        "numbered_gap_family_runs": len(NUMBERED_GAP_RUNS) * len(NUMBERED_KINDS),
+        "numbered_gap_three_new_files_at_the_free_numbers": len(NUMBERED_GAP_RUNS) * len(NUMBERED_KINDS),
         # names with compatibility forms of separators/dots, through the image slots and the dumppdf -E slots
         "nfkc_family_runs": 200,
         "nfkc_family_names_that_leave_dir_once_normalised": 100,
@@ -454,6 +457,12 @@ def enum_cases() -> List[Dict[str, Any]]:
         for j, (kind, ext) in enumerate(NUMBERED_KINDS):
             add(NUMBERED_SLOT, "numbered_%d" % n, b"Run", otype=OTYPES[(k + j) % 3], outmode="abs", env="set", v=4 * (k + j))
             cases[-1].update({"n": n, "kind": kind, "ext": ext})
+    # the same with a hole in the numbering: Run, Run.0 .. Run.(n-1) and Run.(n+1), Run.(n+3) exist, the name is painted three
+    # times - every export has to find a free name of its own (n, n+2, n+4) and leave the existing files alone
+    for k, n in enumerate(NUMBERED_GAP_RUNS):
+        for j, (kind, ext) in enumerate(NUMBERED_KINDS):
+            add(NUMBERED_SLOT, "numbered_gap_%d" % n, b"Run", otype=OTYPES[(k + j) % 3], outmode="abs", env="set", v=4 * (k + j))
+            cases[-1].update({"n": n, "kind": kind, "ext": ext, "gap": True})
     # names routed through the symbolic links inside the CMAP_PATH directory
     for slot in ["encoding_name", "cmapname_stream", "cmapname_dict", "usecmap_cid", "usecmap_simple", "registry_sub",
                  "ordering_sub"]:
@@ -812,6 +821,9 @@ def build_doc(case: Dict[str, Any], h: bytes) -> Tuple[bytes, Dict[str, Any]]:
         facts["kinds"] = list(kinds)
     xobjects[Name(nm1)] = doc.add(_image(kinds[0], doc, dictname))
     content.append(paint(nm1, 72))
+    if slot == NUMBERED_SLOT and case.get("gap"):
+        content.append(paint(nm1, 150))
+        content.append(paint(nm1, 230))
     if slot == PAIR_SLOT:
         xobjects[Name(case["h2"])] = doc.add(_image(kinds[0], doc))
         content.append(paint(case["h2"], 220))
@@ -1069,7 +1081,8 @@ def run_case(case: Dict[str, Any], monitor: bool = True, rec: Any = None) -> Lis
             # a directory of its own inside the usual output directory, filled just for this run and removed afterwards
             numbered_dir = os.path.join(sc.physical_out, "numbered")
             os.mkdir(numbered_dir)
-            for nm in ["Run"] + ["Run.%d" % i for i in range(case["n"])]:
+            extra = ["Run.%d" % (case["n"] + 1), "Run.%d" % (case["n"] + 3)] if case.get("gap") else []
+            for nm in ["Run"] + ["Run.%d" % i for i in range(case["n"])] + extra:
                 with open(os.path.join(numbered_dir, nm + case["ext"]), "wb") as f:
                     f.write(b"S")
             sc.output_dir = sc.eff_out = numbered_dir
@@ -1234,7 +1247,11 @@ def run_case(case: Dict[str, Any], monitor: bool = True, rec: Any = None) -> Lis
                 except (UnicodeDecodeError, ValueError):
                     leaves = False
                 rec.count("nfkc_family_names_that_leave_dir_once_normalised", int(leaves))
-            if slot == NUMBERED_SLOT:
+            if slot == NUMBERED_SLOT and case.get("gap"):
+                want = {os.path.join(numbered_dir, "Run.%d%s" % (case["n"] + d, case["ext"])) for d in (0, 2, 4)}
+                rec.count("numbered_gap_family_runs")
+                rec.count("numbered_gap_three_new_files_at_the_free_numbers", int(set(created) == want))
+            elif slot == NUMBERED_SLOT:
                 rec.count("numbered_run_family_runs")
                 rec.count("numbered_run_preexisting_files", case["n"] + 1)
                 rec.count("numbered_run_exactly_one_new_file", int(created_files == 1 and len(created) == 1))
